@@ -17,7 +17,7 @@ LEVEL = "exploration"
 RULE = ("complete choice tree (no deviation bound) of the real SMC loop with N in {2,3}: initial population and population "
         "after each of the first 2 iterations chosen from {flat, spread 3, spread 1e3}, every resampling index tuple with "
         "non-zero probability; schedules: fixed n=1,2,3, adaptive (eff 0.5/0.9), adaptive+min_step; each execution is paired "
-        "with a run sharing all choices that adds n_final_samples or a checkpoint callback (every 1 / 2). "
+        "with a run sharing all choices that adds n_final_samples or a checkpoint callback (every 1 / 2); continuous 2-D runs are interrupted at every user-callable call and resumed from the last checkpoint (pickled bytes and the live dictionary) and must report the same ratios and evidence. "
         "non-trivial = at least one step whose incremental weights are not all equal")
 ASSUMPTIONS = [
     "teleport kernel stub (evidence accumulation does not depend on how the kernel moves particles)",
@@ -103,9 +103,59 @@ def run_tree(cfg):
     return r.dump()
 
 
+def run_interrupted(cfg):
+    """The estimate does not depend on whether the run was checkpointed, interrupted and resumed: fault at every
+    user-callable call, resume from the last checkpoint (pickled bytes and the live dictionary the callback received)."""
+    from checks.c18 import to_rec
+    from env import resume_harness as rh
+
+    r = Report()
+    R = rh.run(cfg)
+    if R.exception is not None:
+        r.case(explorer.digest(["ref", cfg]))
+        r.violation(f"C08/interrupted/run-raises/{R.exception[0]}", R.exception, {"interrupted": True, "cfg": cfg})
+        return r.dump()
+    ref = (R.result["log_evidence"], R.result["log_evidence_error"], R.history["log_norm_ratio"])
+    for k in range(R.n_calls):
+        F = rh.run(cfg, fault_at=k)
+        if not F.sink:
+            r.case(explorer.digest([cfg, k]), nontrivial=False)
+            continue
+        for route, src in (("bytes", F.sink[-1][1]), ("live-dict", F.live[-1])):
+            rr = rh.run(cfg, resume_from=src)
+            case = {"interrupted": True, "cfg": cfg, "crash_point": k, "route": route}
+            r.case(explorer.digest([cfg, k, route]), nontrivial=True)
+            if rr.exception is not None:
+                r.violation(f"C08/interrupted/resume-raises/{route}/{rr.exception[0]}", rr.exception, case)
+                continue
+            got = (rr.result["log_evidence"], rr.result["log_evidence_error"], rr.history["log_norm_ratio"])
+            if got[2] != ref[2]:
+                kind = "ratio-counted-twice" if len(got[2]) > len(ref[2]) else "ratios-differ"
+                r.violation(f"C08/interrupted/{kind}/{route}", {"reference": ref[2], "resumed": got[2]}, case)
+            elif got[:2] != ref[:2]:
+                r.violation(f"C08/interrupted/evidence-differs/{route}", {"reference": ref[:2], "resumed": got[:2]}, case)
+            for sig, detail in check_evidence(dict(to_rec(rr), result=rr.result)):
+                r.violation(sig + "/resumed-" + route, detail, case)
+    r.sample({"interrupted": True, "cfg": cfg, "crash_points": R.n_calls})
+    return r.dump()
+
+
+def dispatch(job):
+    return globals()[job[0]](job[1])
+
+
 def run(tier, seed, workers):
     rep = Report()
-    for d in pmap("checks.c08", "run_tree", configs(tier), workers):
+    jobs = [("run_tree", c) for c in configs(tier)]
+    for sampler in ("smc", "emcee_smc"):
+        for opts in ({"adaptive": True, "target_efficiency": 0.8}, {"adaptive": False, "n_steps": 3}):
+            for cadence in (1, 2):
+                for nfinal in (None, 10):
+                    if tier == "quick" and nfinal and cadence == 2:
+                        continue
+                    jobs.append(("run_interrupted", {"sampler": sampler, "N": 8, "opts": opts, "cadence": cadence, "n_final": nfinal,
+                                                     "precond": "none", "seed": seed if cadence == 2 else 0}))
+    for d in pmap("checks.c08", "dispatch", jobs, workers):
         rep.merge(d)
     return rep
 
@@ -114,6 +164,10 @@ def replay(case):
     from checks.c06 import _fix
 
     r = Report()
+    if case.get("interrupted"):
+        cfg = case["cfg"]
+        r.merge(run_interrupted(cfg))
+        return r
     cfg = _fix(case["cfg"])
     ex = explorer.run_one(lambda ctx: run_execution(ctx, cfg), case["choices"])
     r.case("replay")
